@@ -361,8 +361,10 @@ def finish(ctx, checker_cmd=None):
             oracle_validation=ctx.oracle_validation, search_evaluations=ctx.search_evaluations,
             known_findings_matched=[k['id'] for k in ctx.known], **ctx.extra),
         assumptions=ctx.assumptions, wall_s=round(time.time() - ctx.t0, 2), violations=len(ctx.violations))
-    os.makedirs(os.path.join(ROOT, 'evidence'), exist_ok=True)
-    with open(os.path.join(ROOT, 'evidence', f'{ctx.pid}.json'), 'w') as f:
+    # evidence/<id>.json is only written by runs against /repo itself; scratch trees (VERIF_REPO) write elsewhere
+    evdir = os.path.join(ROOT, 'evidence') if os.path.realpath(REPO) == '/repo' else os.path.join(ROOT, 'evidence', 'scratch')
+    os.makedirs(evdir, exist_ok=True)
+    with open(os.path.join(evdir, f'{ctx.pid}.json'), 'w') as f:
         json.dump(ev, f, indent=1, default=str)
     for k in ctx.known:
         print(f"KNOWN-FINDING: property={ctx.pid} {k['id']}: {k['text']}")
@@ -408,6 +410,11 @@ def main(run_fn, pid):
     ap.add_argument('--replay', default=None)
     a = ap.parse_args(sys.argv[2:])
     seed = int(os.environ.get('VERIF_SEED', '20260926'))
+    rep = None
+    if a.replay:
+        with open(a.replay if os.path.isabs(a.replay) else os.path.join(ROOT, a.replay)) as f:
+            rep = json.load(f)
+        seed = int(rep.get('seed', seed))   # every random choice derives from the seed: the run replays exactly
     ctx = Ctx(pid, a.tier, seed)
     ctx.trusted = list(GLOBAL_TRUSTED)
     ctx.replay = a.replay
@@ -418,4 +425,10 @@ def main(run_fn, pid):
         print(tb, file=sys.stderr)
         ctx.obligation('harness:completed', 'harness', False, tb)
         ctx.violation('correspondence', 'harness', 'exception', 'harness crashed', tb[-3000:], theorem='harness')
-    sys.exit(finish(ctx))
+    rc = finish(ctx)
+    if rep is not None:
+        key = (rep.get('kind'), rep.get('call_site'), rep.get('predicate'), json.dumps(rep.get('case'), sort_keys=True, default=str))
+        hit = any((v['kind'], v['call_site'], v['predicate'], json.dumps(v['case'], sort_keys=True, default=str)) == key for v in ctx.violations)
+        print(f"REPLAY {a.replay}: {'reproduced' if hit else 'NOT reproduced'} on the current tree "
+              f"({rep.get('call_site')} / {rep.get('predicate')})")
+    sys.exit(rc)
